@@ -15,15 +15,21 @@ var labelVals = []string{"x1", "x2", "web", "db", "c", ""} // the empty string i
 var portNames = []string{"http", "dns", "metrics"}
 var protos = []string{"TCP", "UDP", "SCTP"}
 var portPool = []int{80, 1, 2, 53, 79, 81, 443, 8080, 8081, 65534, 65535}
-var cidrs = []string{"0.0.0.0/0", "0.0.0.0/1", "128.0.0.0/1", "10.0.0.0/8", "10.1.0.0/16", "10.1.2.0/24", "10.1.2.3/32", "0.0.0.0/32", "255.255.255.255/32", "172.16.0.0/12"}
+
+// the last entries isolate the addresses the tool itself attaches to pods: status.hostIP / podIPs of the rendered Pod
+// manifests (192.168.49.2, 10.244.0.7) and the host address of pods synthesised from controllers (127.0.0.1)
+var cidrs = []string{"0.0.0.0/0", "0.0.0.0/1", "128.0.0.0/1", "10.0.0.0/8", "10.1.0.0/16", "10.1.2.0/24", "10.1.2.3/32", "0.0.0.0/32", "255.255.255.255/32", "172.16.0.0/12",
+	"192.168.49.2/32", "192.168.49.2/31", "127.0.0.1/32", "127.0.0.0/31", "10.244.0.7/32"}
 var subOf = map[string][]string{
-	"0.0.0.0/0":     {"0.0.0.0/1", "128.0.0.0/1", "10.0.0.0/8", "10.1.0.0/16", "10.1.2.3/32", "0.0.0.0/32", "255.255.255.255/32", "172.16.0.0/12"},
-	"0.0.0.0/1":     {"10.0.0.0/8", "10.1.2.0/24", "0.0.0.0/32"},
-	"128.0.0.0/1":   {"172.16.0.0/12", "255.255.255.255/32"},
-	"10.0.0.0/8":    {"10.1.0.0/16", "10.1.2.0/24", "10.1.2.3/32"},
-	"10.1.0.0/16":   {"10.1.2.0/24", "10.1.2.3/32"},
-	"10.1.2.0/24":   {"10.1.2.3/32", "10.1.2.0/25", "10.1.2.128/25"},
-	"172.16.0.0/12": {"172.16.0.0/16", "172.31.255.255/32"},
+	"0.0.0.0/0":       {"0.0.0.0/1", "128.0.0.0/1", "10.0.0.0/8", "10.1.0.0/16", "10.1.2.3/32", "0.0.0.0/32", "255.255.255.255/32", "172.16.0.0/12"},
+	"0.0.0.0/1":       {"10.0.0.0/8", "10.1.2.0/24", "0.0.0.0/32", "127.0.0.1/32"},
+	"128.0.0.0/1":     {"172.16.0.0/12", "255.255.255.255/32", "192.168.49.2/32"},
+	"192.168.49.2/31": {"192.168.49.2/32", "192.168.49.3/32"},
+	"127.0.0.0/31":    {"127.0.0.1/32"},
+	"10.0.0.0/8":      {"10.1.0.0/16", "10.1.2.0/24", "10.1.2.3/32"},
+	"10.1.0.0/16":     {"10.1.2.0/24", "10.1.2.3/32"},
+	"10.1.2.0/24":     {"10.1.2.3/32", "10.1.2.0/25", "10.1.2.128/25"},
+	"172.16.0.0/12":   {"172.16.0.0/16", "172.31.255.255/32"},
 }
 var allKinds = []string{"Deployment", "Pod", "StatefulSet", "DaemonSet", "ReplicaSet", "Job", "CronJob", "ReplicationController", "Owned:ReplicaSet", "Owned:StatefulSet", "Owned2:ReplicaSet"}
 
